@@ -53,7 +53,7 @@ type Engine struct {
 	witnessed    map[string]bool
 	nWitness     int
 	nDump        int
-	aux          map[*Solver]*Solver
+	aux          map[auxKey]*Solver
 }
 
 func (e *Engine) noteInitProblem(pkg, msg string) {
@@ -267,7 +267,7 @@ type RunResult struct {
 	Forks        int
 	Decisions    int
 	Steps        int64
-	QFeas, QAssert, QSat, QUnsat, QUnknown, CacheHits, SynHits, OneShot int
+	QFeas, QAssert, QSat, QUnsat, QUnknown, CacheHits, SynHits, OneShot, AltSolver int
 	SolverTime   time.Duration
 	Wall         time.Duration
 	Funcs        map[*ssa.Function]bool
@@ -334,12 +334,11 @@ func (e *Engine) explore(entry *ssa.Function, expectBlock bool) *RunResult {
 				defer f.Close()
 			}
 			defer func() {
-				if a := e.peekAux(sol); a != nil {
-					mu.Lock()
-					solverTime += a.Time
-					mu.Unlock()
-					e.dropAux(sol)
-				}
+				at := e.auxTime(sol)
+				mu.Lock()
+				solverTime += at
+				mu.Unlock()
+				e.dropAux(sol)
 				mu.Lock()
 				solverTime += sol.Time
 				mu.Unlock()
@@ -395,6 +394,7 @@ func (e *Engine) explore(entry *ssa.Function, expectBlock bool) *RunResult {
 				rr.CacheHits += res.CacheHits
 				rr.SynHits += res.SynHits
 				rr.OneShot += res.OneShot
+				rr.AltSolver += res.AltSolver
 				if res.NDecisions > rr.MaxDepthSeen {
 					rr.MaxDepthSeen = res.NDecisions
 				}
@@ -514,35 +514,65 @@ func (e *Engine) funcList(fs map[*ssa.Function]bool) []string {
 	return out
 }
 
-func (e *Engine) auxSolver(main *Solver) *Solver {
+type auxKey struct {
+	main *Solver
+	alt  bool
+}
+
+func (e *Engine) altKind() SolverKind {
+	if e.cfg.Solver == SolverCVC5Int || e.cfg.Solver == SolverCVC5 {
+		return SolverZ3New
+	}
+	return SolverCVC5Int
+}
+
+func (e *Engine) auxSolver(main *Solver, alt bool) *Solver {
 	e.mu.Lock()
 	defer e.mu.Unlock()
 	if e.aux == nil {
-		e.aux = map[*Solver]*Solver{}
+		e.aux = map[auxKey]*Solver{}
 	}
-	if a, ok := e.aux[main]; ok && !a.dead {
+	k := auxKey{main, alt}
+	if a, ok := e.aux[k]; ok && !a.dead {
 		return a
 	}
-	a, err := NewSolver(e.cfg.Solver, e.cfg.FeasTimeoutMs)
+	kind := e.cfg.Solver
+	to := e.cfg.FeasTimeoutMs
+	if alt {
+		kind = e.altKind()
+		to = e.cfg.AssertTimeoutMs
+	}
+	a, err := NewSolver(kind, to)
 	if err != nil {
 		return nil
 	}
-	e.aux[main] = a
+	e.aux[k] = a
 	return a
 }
 
-func (e *Engine) peekAux(main *Solver) *Solver {
+func (e *Engine) auxTime(main *Solver) time.Duration {
 	e.mu.Lock()
 	defer e.mu.Unlock()
-	return e.aux[main]
+	var d time.Duration
+	for k, a := range e.aux {
+		if k.main == main {
+			d += a.Time
+		}
+	}
+	return d
 }
 
 func (e *Engine) dropAux(main *Solver) {
 	e.mu.Lock()
-	a := e.aux[main]
-	delete(e.aux, main)
+	var cl []*Solver
+	for k, a := range e.aux {
+		if k.main == main {
+			cl = append(cl, a)
+			delete(e.aux, k)
+		}
+	}
 	e.mu.Unlock()
-	if a != nil {
+	for _, a := range cl {
 		a.Close()
 	}
 }
